@@ -57,6 +57,9 @@ func toResult(w dnsfx.RefOutcome) ech.ResolveResult {
 	return rr
 }
 
+// c17WarmupAddr is the (down) target of the earlier Dial made on a reused Dialer.
+const c17WarmupAddr = "192.0.2.250:443"
+
 func TestC17(t *testing.T) {
 	rec := ev.Get("C17")
 	rec.Rule("zones (service records with/without ech, several targets, aliases, CNAMEs; C14 generators) behind the loopback DoH server; address forms host, host:port, comma-separated lists, IP literals; Dialer{RequireECH, PublicName, MaxConcurrency 1..3}; caller tls.Config nil / with ServerName / with an ECH config list / with other fields; in a third of the single-entry cases the Dialer is driven through Transport.RoundTrip (https URL, Transport.TLSConfig = the caller config) instead of Dial; scripted DialFunc outcomes per address {ok, error, ECH rejection with retry configs, without, rejection twice}. Oracle: invariants over the DialFunc call log - never a nil or empty ECH list under RequireECH; caller list and ServerName never replaced; otherwise ServerName = host the caller wrote and the list = ech of the HTTPS record the reference Targets attributes the address to (or the PublicName bootstrap config, or nil); a rejection with retry configs causes exactly one more call to the same address with exactly those configs; caller's tls.Config unchanged. distinct = (zone shape, options, outcome script); non-trivial = 2+ targets or a rejection outcome")
@@ -215,6 +218,10 @@ func TestC17(t *testing.T) {
 		if callerList != nil && anyRecordECH {
 			cl = append(cl, "caller_list_and_record_list")
 		}
+		reusedDialer := !viaTransport && !badPublicName && rapid.IntRange(0, 2).Draw(t, "dialer_used_before_with_other_public_name") == 0
+		if reusedDialer {
+			cl = append(cl, "dialer_reused")
+		}
 		// scripted outcomes
 		outcomes := map[string]string{}
 		retryList := []byte("RETRY-CONFIG-LIST")
@@ -222,6 +229,9 @@ func TestC17(t *testing.T) {
 		var calls []c17Call
 		rejection := false
 		d.DialFunc = func(ctx context.Context, network, addr string, c *tls.Config) (*fakeConn, error) {
+			if addr == c17WarmupAddr {
+				return nil, errors.New("warm-up target is down") // the earlier Dial of a reused Dialer
+			}
 			mu.Lock()
 			defer mu.Unlock()
 			n := 0
@@ -302,6 +312,14 @@ func TestC17(t *testing.T) {
 				})
 				tr.HTTPTransport.CloseIdleConnections()
 			} else {
+				if reusedDialer {
+					// the application has used this Dialer before, for another front: what that
+					// call set up (a bootstrap config list for ITS public name) is not this call's
+					real := d.PublicName
+					d.PublicName = "earlier-front.example"
+					guard(func() error { _, e := d.Dial(ctx, "tcp", c17WarmupAddr, nil); return e })
+					d.PublicName = real
+				}
 				derr = guard(func() error { _, e := d.Dial(ctx, "tcp", addrArg, tc); return e })
 			}
 			// let late workers finish
